@@ -7,6 +7,17 @@
 #include <set>
 #include <sstream>
 
+namespace {
+uint64_t fnv(const std::string &s)
+{
+    uint64_t h = 1469598103934665603ULL;
+    for (unsigned char ch : s) {
+        h = (h ^ ch) * 1099511628211ULL;
+    }
+    return h;
+}
+} // namespace
+
 namespace vp {
 
 const char *gtRoleName(GtRole r)
@@ -753,6 +764,22 @@ GtModel genGroundTruthModel(Src &src, const GtOptions &opt)
                 F = lin.size() == 1 ? Expr::make(Op::PLUS, {lin[0], Expr::cn(1, "dimensionless", "1")}) : Expr::make(Op::PLUS, lin);
                 rhs = subst(F, mp);
                 ++m.counters["repairs"];
+            }
+            // With initial guesses the unknowns count as known in the analyser's first passes, so a bare k that still awaits
+            // its own equation would be taken for the unknown of this one: only the voi and states qualify then.
+            std::vector<std::string> bare;
+            for (const auto &v : vars) {
+                const GtRole r = m.classes[static_cast<size_t>(n2c[v.first])].role;
+                if (!withGuesses || r == GtRole::STATE || r == GtRole::VOI) {
+                    bare.push_back(v.first);
+                }
+            }
+            if (opt.nlaBareKnown && !bare.empty() && fnv(exprToSexp(F)) % 3 != 0) {
+                const std::string kn = bare[fnv(exprToSexp(rhs)) % bare.size()];
+                Expr residual = Expr::make(Op::MINUS, {F, rhs});
+                rhs = Expr::make(Op::PLUS, {residual, Expr::ci(kn)});
+                F = Expr::ci(kn);
+                ++m.counters["nla-bare-known-side"];
             }
             sys.equations.emplace_back(F, rhs);
             b.equations[static_cast<size_t>(sys.comp)].emplace_back(F, rhs);
